@@ -29,7 +29,7 @@ impl<M: RawMutex + 'static> EventExec<M> {
                 Some(f) => f.is_terminated() as u64,
             })
             .collect();
-        let mut buf = [VerifNode { addr: 0, state: 0, waker: 0, extra: 0 }; 64];
+        let mut buf = [VerifNode { addr: 0, state: 0, waker: 0, extra: 0 }; 512];
         let n = self.ev.verif_snapshot(&mut buf);
         for node in &buf[..n] {
             let slot = self.futs.find(node.addr, |f| f.verif_node_addr());
